@@ -131,9 +131,9 @@ def pair(i, j, **kw):
     return c
 
 BITOPS = {
-    "and": dict(OPT="BitAndAssign", OPM="bitand_assign", BOP="&&", WOP="&", WL="lemma_wbit_and"),
-    "or": dict(OPT="BitOrAssign", OPM="bitor_assign", BOP="||", WOP="|", WL="lemma_wbit_or"),
-    "xor": dict(OPT="BitXorAssign", OPM="bitxor_assign", BOP="!=", WOP="^", WL="lemma_wbit_xor"),
+    "and": dict(OPB="BitAnd", OPBM="bitand", OPT="BitAndAssign", OPM="bitand_assign", BOP="&&", WOP="&", WL="lemma_wbit_and"),
+    "or": dict(OPB="BitOr", OPBM="bitor", OPT="BitOrAssign", OPM="bitor_assign", BOP="||", WOP="|", WL="lemma_wbit_or"),
+    "xor": dict(OPB="BitXor", OPBM="bitxor", OPT="BitXorAssign", OPM="bitxor_assign", BOP="!=", WOP="^", WL="lemma_wbit_xor"),
 }
 
 RHS_J = {"I": "{J}", "J": "{I}", "X": "{XJ}", "Y": ""}     # container word J, chunk type I
@@ -167,8 +167,8 @@ GROUPS["bvf_bitops"] = dict(name="bvf_bitops", prelude=lambda ctx: BVF_PRELUDE +
     items=lambda ctx: BVF_BASE + rhs_bvf_items(ctx) + stub(BVF_CORE) + verify(["bvf.binop_bvf"]))
 
 ARITH = {
-    "add": dict(OPT="AddAssign", OPM="add_assign", CM="cadd", SGN="+", STEP="lemma_addc_step", FIN="lemma_add_final"),
-    "sub": dict(OPT="SubAssign", OPM="sub_assign", CM="csub", SGN="-", STEP="lemma_borrow_step", FIN="lemma_sub_final"),
+    "add": dict(OPB="Add", OPBM="add", OPT="AddAssign", OPM="add_assign", CM="cadd", SGN="+", STEP="lemma_addc_step", FIN="lemma_add_final"),
+    "sub": dict(OPB="Sub", OPBM="sub", OPT="SubAssign", OPM="sub_assign", CM="csub", SGN="-", STEP="lemma_borrow_step", FIN="lemma_sub_final"),
 }
 VALUE_PRELUDE = ["value.rs", "value_word.rs"]
 def rhs_value_prelude(ctx):
@@ -357,6 +357,22 @@ GROUPS["bv_iarray"] = dict(name="bv_iarray", features="#![feature(allocator_api)
         + with_ctx(verify(["bv.int_len", "bv.get_int"]), yj_d(ctx)))
 GROUPS["bv_defaults"] = G("bv_defaults", BV_PRELUDE, BV_BASE + stub(["bv.len", "bv.leading_zeros"]) + verify(["bv.significant_bits"]))
 GROUPS["bv_defaults"]["features"] = "#![feature(allocator_api)]"
+# ---- operator forms (generated units, tools/genforms.py). ctx as for the compound assignments + OPB/OPBM
+def forms_kind(ctx):
+    return "val" if "SGN" in ctx else "bit"
+def bvd_forms_items(ctx):
+    k = forms_kind(ctx)
+    callee = ["bvd.addsub_bvd", "bvd.addsub_bvf"] if k == "val" else ["bvd.binop_bvd", "bvd.binop_bvf"]
+    return (BVD_BASE + src_bvf_items(ctx) + stub(BVD_CORE) + stub(callee) + [("stub", "bvd.clone")] +
+            verify(["bvd.form_owned_bvd_" + k, "bvd.form_ref_bvd_" + k, "bvd.form_owned_bvf_" + k, "bvd.form_ref_bvf_" + k, "bvd.form_assign_bvd_" + k]))
+GROUPS["bvd_forms"] = dict(name="bvd_forms", features="#![feature(allocator_api)]",
+    prelude=lambda ctx: (BVD_VAL_PRELUDE if "SGN" in ctx else BVD_PRELUDE) + src_bvf_prelude(ctx), items=bvd_forms_items)
+def bvf_forms_items(ctx):
+    k = forms_kind(ctx)
+    callee = ["bvf.addsub_bvf"] if k == "val" else ["bvf.binop_bvf"]
+    return BVF_BASE + rhs_bvf_items(ctx) + stub(BVF_CORE) + stub(callee) + verify(["bvf.form_owned_bvf_" + k, "bvf.form_ref_bvf_" + k])
+GROUPS["bvf_forms"] = dict(name="bvf_forms",
+    prelude=lambda ctx: WORD_PRELUDE + ["conv_std.rs"] + (VALUE_PRELUDE + ["bvf.rs", "bvf_val.rs"] if "SGN" in ctx else ["bvf.rs"]) + rhs_bvf_prelude(ctx), items=bvf_forms_items)
 GROUPS["mul_theory"] = dict(name="mul_theory", prelude=lambda ctx: WORD_PRELUDE + VALUE_PRELUDE + ["value_mul.rs"], items=lambda ctx: [("decl", "decl.Bit")])
 
 def cmp_prelude(ctx):
@@ -552,6 +568,15 @@ PROPS["C16"]["quick"] += [("bv_defaults", U64)]
 PROPS["C16"]["thorough"] += [("bv_defaults", U64)]
 PROPS["C12"]["quick"] += [("bv_iarray", {"I": "u64", "J": j}) for j in WQ]
 PROPS["C12"]["thorough"] += [("bv_iarray", {"I": "u64", "J": j}) for j in W4]
+def forms_jobs(pairs, js, bitops, arith):
+    out = []
+    for j in js:
+        out += [("bvd_forms", pair("u64", j, **BITOPS[o])) for o in bitops] + [("bvd_forms", pair("u64", j, **ARITH_D[o])) for o in arith]
+    for (i, j) in pairs:
+        out += [("bvf_forms", pair(i, j, **BITOPS[o])) for o in bitops] + [("bvf_forms", pair(i, j, **ARITH[o])) for o in arith]
+    return out
+FORMS_Q = forms_jobs([("u64", "u64"), ("u8", "u64")], ["u64"], ("or",), ("add", "sub")) + forms_jobs([], ["u8"], ("xor",), ())
+FORMS_T = forms_jobs(PT, W4, ("and", "or", "xor"), ("add", "sub"))
 BVD_ARITH_JOBS = [("bvd_arith", dict(U64, **ARITH_D[o])) for o in ("add", "sub")]
 PROPS["C01"]["quick"] += BVD_ARITH_JOBS
 PROPS["C01"]["thorough"] += BVD_ARITH_JOBS
@@ -562,7 +587,7 @@ _BITOPS_Q = [("bvf_bitops", pair(i, j, **BITOPS[o])) for (i, j) in [("u64", "u64
             [("bvd_bitops", dict(U64, **BITOPS[o])) for o in ("and", "or", "xor")]
 _BV_Q = BV_CORE_J + BV_MORE_J + bv_ops_jobs(["u64"], ("or",), BITOPS) + bv_ops_jobs(["u64"], ("add", "sub"), ARITH_D)
 PROPS["C03"] = {"quick": _ARITH_Q + BVD_ARITH_JOBS + _BITOPS_Q + _BV_Q, "thorough": PROPS["C01"]["thorough"] + PROPS["C04"]["thorough"]}
-PROPS["C20"] = {"quick": _ARITH_Q + BVD_ARITH_JOBS + _BITOPS_Q + bv_ops_jobs(["u64"], ("or",), BITOPS) + bv_ops_jobs(["u64"], ("add", "sub"), ARITH_D) + bv_shift_jobs(["u64"]) + dshift_ref(["usize"]) + [("bvd_misc", U64)], "thorough": PROPS["C01"]["thorough"] + PROPS["C04"]["thorough"]}
+PROPS["C20"] = {"quick": _ARITH_Q + BVD_ARITH_JOBS + _BITOPS_Q + bv_ops_jobs(["u64"], ("or",), BITOPS) + bv_ops_jobs(["u64"], ("add", "sub"), ARITH_D) + bv_shift_jobs(["u64"]) + dshift_ref(["usize"]) + [("bvd_misc", U64)] + FORMS_Q, "thorough": PROPS["C01"]["thorough"] + PROPS["C04"]["thorough"] + PROPS["C05"]["thorough"] + FORMS_T}
 PROPS["C02"] = {"quick": BVD_ARITH_JOBS[1:], "thorough": BVD_ARITH_JOBS}
 
 # -------------------------------------------------------------------------------------------------
@@ -663,7 +688,15 @@ MANIFEST_TEXT["C17"] = dict(
           "do not modify the iterator, the vector is never modified. Any interleaving of the calls therefore agrees with a slice iterator over the same bits (induction over the calls)." + DYN_NOTE),
     note=("Emitted as inherent methods of BitIterator<'a, T> for each concrete T (the std Iterator trait has no contract hook); `Self::Item` resolved to Bit (R21). Not under contract: the forwarding BitVector::iter / "
           "IntoIterator::into_iter (one call to BitIterator::new), std's default adapter methods. " + TRUST_NOTE))
-dyn_only("C20", "every owned/borrowed/assign form of + - * / % & | ^ << >> ! and the native-integer forms against each other (identical length and bits), borrowed operands unchanged.", "The forwarding forms themselves are not under contract. The bodies every form funnels into ARE verified on every run of this check (Bvf op= &Bvf for + - & | ^, Bvd op= &Bvd for + - & | ^: units tagged C20); a definite failure there is reported as a violation of this property.")
+MANIFEST_TEXT["C20"] = dict(
+    text=("Proof (for the forms listed; exploration for the rest): every form of + - & | ^ funnels into a compound assignment `a op= &b`; those bodies are verified (C01, C04), and the forwarding forms are verified against "
+          "the SAME contract as the assignment they forward to: `a op &b` and `&a op &b` (generic impl<T> instantiated at T = &Bvd, &Bvf<J,N>) for Bvd and Bvf left operands, `a op= b` by value (Bvd), Bv op= &Bvf / &Bvd / &Bv "
+          "(dispatch on both operands). Shifts: `a <<= k`, `a >>= k` for Bvf, Bvd, Bv and the separately written `&bvd << k` / `&bvd >> k` bodies are verified against one contract (saturating for amounts >= len, any of the six "
+          "amount types); `!a` for Bvf, &Bvf, Bvd, &Bvd (separate body), Bv. All contracts state the result over the whole abstract view and leave borrowed operands untouched (they are `&` parameters: Rust's type system, and "
+          "the contracts mention only their old value). Exploration for the remaining forms: every owned/borrowed/assign form of + - * / % & | ^ << >> ! and the native-integer forms are compared against each other "
+          "(identical length and bits, borrowed operands unchanged)." + DYN_NOTE),
+    note=("Not under contract (second engine only): forms of * / %, native-integer operands (they build a temporary vector), Bv's by-value/by-reference op forms, the by-value / by-reference shift forwarders. "
+          "Assumed: derive(Clone) of Bvf/Bvd returns a structurally equal value (T1). " + TRUST_NOTE))
 MANIFEST_TEXT["C01"] = dict(
     text=("Proof (add/sub): the real bodies of AddAssign/SubAssign<&Bvf<I2,N2>> for Bvf<I1,N1> (both the same-word-size branch and the re-chunking branch through get_int) are verified against the VALUE-level contract "
           "val(result) == (val(a) +/- val(b)) mod 2^len, len unchanged, storage beyond len zero, on top of verified contracts of the word primitives cadd/csub/wmul/mask and of the carry-chain/bridge lemmas (spec/prelude/value*.rs)." + DYN_NOTE),
